@@ -20,6 +20,15 @@
  * stops there (as for a livelock), the results are printed followed by "CRASHED <id>" and the process exits with
  * status 4 because its memory can no longer be trusted; the caller runs the remaining programs in a new process.
  * A fault anywhere else kills the process by the signal (= harness error).
+ *
+ * Guard bytes.  Every atomic object and every expected-value object of a compare-exchange is surrounded by guard
+ * bytes (0xA5) that nothing may write: the aggregate the atomic object lives in plus extra guard objects named by
+ * the info function (mode 0), and the regions the bodies register with vp_guard()/vp_static() on their private stack
+ * or in thread-private static memory.  All live regions are checked when a body calls vp_body_end(), after every
+ * operation has returned and at the end of the run; the first modified byte is reported in the history (G=).
+ * A body is called through vp_call_body() (c16_rt.S): callee-saved registers and %rsp are kept in static memory,
+ * compared after the return (R=) and restored, so a body that destroys its own frame cannot take the runtime down.
+ * vp_body_end() also receives how often each side-effecting operand of the operation was evaluated (X=).
  */
 #define _GNU_SOURCE
 #include <stdint.h>
@@ -67,7 +76,10 @@ static struct {
 static unsigned char arena[512] __attribute__((aligned(64)));
 static unsigned char stacks[MAXT][STACKSZ] __attribute__((aligned(64)));
 static struct vp_ctx ctx[MAXT], mainctx, fx_template;
-static int cur = -1;                 /* running virtual thread, -1 = scheduler */
+int vp_cur = -1;                     /* running virtual thread, -1 = scheduler (read by vp_call_body) */
+#define cur vp_cur
+long vp_save[MAXT][8];               /* vp_call_body: rbx rbp r12 r13 r14 r15 rsp, mismatch mask */
+long vp_call_body(body_fn fn, void *p, long a, long *e);
 static int started[MAXT], finished[MAXT], waiting_join[MAXT];
 static int published;                /* mode 1: object handed to the other threads */
 static unsigned char *obj_addr, *agg_addr;
@@ -80,7 +92,20 @@ static struct ev trace[MAXTRACE], trace2[MAXTRACE];
 static int ntrace;
 static char unlocked_flag[16];       /* first unlocked RMW on the registered atomic object in this run */
 static long final_val;
-static int neighbours_ok;
+
+/* ------------------------------------------------------------------ guard bytes */
+#define FILL 0xA5
+#define MAXREG 8
+#define PRIVSZ 64
+/* tag: 1 expected-value object in [hole, hole+holesz), 2 / 3 guard object declared before / after an expected-value
+   object (no hole), 4 / 5 / 6 the same for an atomic object */
+struct region { unsigned char *base, *hole; long size, holesz; int tag; };
+static struct region regs[MAXT][MAXREG], gregs[MAXREG];
+static int nregs[MAXT], ngregs;
+static unsigned char vp_priv[MAXT][PRIVSZ] __attribute__((aligned(64)));   /* thread-private static memory */
+static char guard_flag[16];          /* first modified guard byte of this run: E-before E-after O-before O-after */
+static char regs_flag[40];           /* callee-saved registers a body did not preserve */
+static char evals_flag[8];           /* first operand not evaluated exactly once: <position><count> */
 
 /* ------------------------------------------------------------------ explorer state */
 static int depth;                    /* scheduling decisions taken in this run */
@@ -99,6 +124,25 @@ static long long now(void) { struct timespec ts; clock_gettime(CLOCK_MONOTONIC, 
 /* 0 while code under test runs on a virtual thread, 1 while the runtime itself runs */
 static volatile int in_runtime = 1;
 static volatile int peeking;          /* the runtime reads the operand of the instruction about to execute */
+
+static void die(const char *msg);
+static unsigned long long n_guard_checks;   /* guard regions examined (vacuity guard of the check) */
+static void check_region(const struct region *r) {
+  n_guard_checks++;
+  for (long i = 0; i < r->size && !guard_flag[0]; i++) {
+    unsigned char *p = r->base + i;
+    if (r->hole && p >= r->hole && p < r->hole + r->holesz) continue;
+    if (*p == FILL) continue;
+    int after = r->hole ? p >= r->hole + r->holesz : (r->tag == 3 || r->tag == 6);
+    snprintf(guard_flag, sizeof guard_flag, "%c-%s", r->tag <= 3 ? 'E' : 'O', after ? "after" : "before");
+  }
+}
+
+static void check_all_guards(void) {
+  for (int t = 0; t < MAXT; t++)
+    for (int i = 0; i < nregs[t]; i++) check_region(&regs[t][i]);
+  for (int i = 0; i < ngregs; i++) check_region(&gregs[i]);
+}
 
 static void die(const char *msg) {
   printf("HARNESS-ERROR %s prog=%s depth=%d\n", msg, prog.id, depth);
@@ -194,6 +238,47 @@ static void thread_exit(void) {
   die("finished thread resumed");
 }
 
+static void add_region(struct region *tab, int *n, long tag, void *base, long size, void *hole, long holesz) {
+  unsigned char *b = base, *h = hole;
+  if (*n >= MAXREG) die("too many guard regions");
+  if (tag < 1 || tag > 6 || size < 1 || size > 512 || (h && (h < b || holesz < 1 || h + holesz > b + size)) || (!h && holesz))
+    die("bad guard region");
+  struct region *r = &tab[(*n)++];
+  r->base = b; r->size = size; r->hole = h; r->holesz = h ? holesz : 0; r->tag = tag;
+  peeking = 1;                         /* a fault here means the body handed over a wild address: its fault */
+  for (long i = 0; i < size; i++)
+    if (!h || b + i < h || b + i >= h + holesz) b[i] = FILL;
+  peeking = 0;
+}
+
+/* ---- services callable from the bodies: guard regions on the private stack / in thread-private static memory ---- */
+void vp_guard(long tag, void *base, long size, void *hole, long holesz) {
+  in_runtime = 1;
+  if (cur < 0) die("vp_guard outside a virtual thread");
+  add_region(regs[cur], &nregs[cur], tag, base, size, hole, holesz);
+  in_runtime = 0;
+}
+
+void *vp_static(long size) {
+  in_runtime = 1;
+  if (cur < 0 || size < 1 || size > 8) die("vp_static misuse");
+  add_region(regs[cur], &nregs[cur], 1, vp_priv[cur], 16 + size + 16, vp_priv[cur] + 16, size);
+  in_runtime = 0;
+  return vp_priv[cur] + 16;
+}
+
+/* last call of a body: guard bytes intact?  every side-effecting operand evaluated exactly once?  (-1: no such operand) */
+void vp_body_end(long na, long ne, long nd) {
+  in_runtime = 1;
+  if (cur < 0) die("vp_body_end outside a virtual thread");
+  check_all_guards();
+  long n[3] = { na, ne, nd };
+  for (int i = 0; i < 3; i++)
+    if (n[i] != -1 && n[i] != 1 && !evals_flag[0])
+      snprintf(evals_flag, sizeof evals_flag, "%c%ld", "AED"[i], n[i] < 0 || n[i] > 9 ? 9 : n[i]);
+  in_runtime = 0;
+}
+
 static uint64_t peek(uint64_t addr, int size) {
   uint64_t v = 0;
   peeking = 1;
@@ -214,6 +299,8 @@ void vp_access(uint64_t addr, unsigned ks, uint64_t pc) {
   if (!on_object) {
     uint64_t lo = (uint64_t)stacks[cur], hi = lo + STACKSZ;
     if (addr >= lo && addr < hi) return;                 /* private */
+    lo = (uint64_t)vp_priv[cur];
+    if (addr >= lo && addr < lo + PRIVSZ) return;         /* private static memory (vp_static) */
   }
   in_runtime = 1;
   if (on_object && size && !unlocked_flag[0] && (kind == K_UNLOCKED || kind == K_CMPX_R))
@@ -253,6 +340,7 @@ void vp_auto_end(long r, long e) {
   waiting_join[cur] = 0;
   final_val = 0;
   memcpy(&final_val, obj_addr, obj_size);
+  check_all_guards();                  /* every other thread has finished: the parent's guard regions are still live */
   in_runtime = 0;
 }
 
@@ -267,10 +355,19 @@ void vp_thread_main(void) {
     ret_done[t] = 0;
     if (i > 0) { sched_point(); push_ev(K_YIELD, t, 0, i, 0, 0, 0, 0); }
     if (!parent) push_ev(K_CALL, t, 0, i, 0, 0, 0, 0);
+    nregs[t] = 0;
     in_runtime = 0;
-    long r = vp_ops[o->opidx].fn(obj_base, o->arg, &e);
+    long r = vp_call_body(vp_ops[o->opidx].fn, obj_base, o->arg, &e);
     in_runtime = 1;
     if (cur != t) die("body returned on the wrong thread");
+    if (vp_save[t][7] && !regs_flag[0]) {
+      static const char *rn[] = { "rbx", "rbp", "r12", "r13", "r14", "r15", "rsp" };
+      int n = 0;
+      for (int b = 0; b < 7; b++)
+        if (vp_save[t][7] >> b & 1) n += snprintf(regs_flag + n, sizeof regs_flag - n, "%s%s", n ? "+" : "", rn[b]);
+    }
+    nregs[t] = 0;                      /* the body's frame is dead: its regions were checked by vp_body_end() */
+    check_all_guards();                /* live regions of the other threads and of the atomic object */
     if (!ret_done[t]) push_ev(K_RET, t, 0, i, 0, 0, (uint64_t)r, (uint64_t)e);
   }
   thread_exit();
@@ -293,14 +390,17 @@ static void run_once(void) {
   memset(started, 0, sizeof started); memset(finished, 0, sizeof finished);
   memset(waiting_join, 0, sizeof waiting_join);
   published = 0; aborted = 0; depth = 0; ntrace = 0; pre[0] = 0; unlocked_flag[0] = 0;
-  final_val = 0; neighbours_ok = 1;
-  memset(arena, 0xA5, sizeof arena);
+  final_val = 0; guard_flag[0] = regs_flag[0] = evals_flag[0] = 0;
+  memset(nregs, 0, sizeof nregs); ngregs = 0;
+  memset(arena, FILL, sizeof arena);
   if (prog.mode == 0) {
     obj_addr = (unsigned char *)info(arena, 0); obj_size = info(arena, 1);
     agg_addr = (unsigned char *)info(arena, 2); agg_size = info(arena, 3);
     obj_base = (void *)info(arena, 5);
     if (obj_size < 1 || obj_size > 8 || obj_addr < agg_addr || obj_addr + obj_size > agg_addr + agg_size) die("bad object geometry");
-    memset(agg_addr, 0xA5, agg_size);
+    add_region(gregs, &ngregs, 4, agg_addr, agg_size, obj_addr, obj_size);
+    for (long k = 0, n = info(arena, 6); k < n; k++)       /* guard objects declared next to the atomic object */
+      add_region(gregs, &ngregs, info(arena, 12 + 3 * k), (void *)info(arena, 10 + 3 * k), info(arena, 11 + 3 * k), 0, 0);
     memcpy(obj_addr, &prog.init, obj_size);
   } else {
     obj_addr = agg_addr = 0; obj_size = agg_size = 0; obj_base = 0;
@@ -317,11 +417,8 @@ static void run_once(void) {
   if (prog.mode == 0) {
     if (vp_objs[prog.obj].has_fin) final_val = info(arena, 4);
     else { final_val = 0; memcpy(&final_val, obj_addr, obj_size); }
-    for (long i = 0; i < agg_size; i++) {
-      unsigned char *p = agg_addr + i;
-      if ((p < obj_addr || p >= obj_addr + obj_size) && *p != 0xA5) neighbours_ok = 0;
-    }
   }
+  check_all_guards();
 }
 
 /* ------------------------------------------------------------------ histories */
@@ -332,7 +429,8 @@ static int history_text(char *buf, int cap) {
     if (e->kind == K_CALL) n += snprintf(buf + n, cap - n, "c%d.%d ", e->thread, e->opno);
     else if (e->kind == K_RET) n += snprintf(buf + n, cap - n, "r%d.%d=%ld:%ld ", e->thread, e->opno, (long)e->val, (long)e->val2);
   }
-  n += snprintf(buf + n, cap - n, "F=%ld N=%d U=%s", final_val, neighbours_ok, unlocked_flag[0] ? unlocked_flag : "-");
+  n += snprintf(buf + n, cap - n, "F=%ld G=%s R=%s X=%s U=%s", final_val, guard_flag[0] ? guard_flag : "-",
+                regs_flag[0] ? regs_flag : "-", evals_flag[0] ? evals_flag : "-", unlocked_flag[0] ? unlocked_flag : "-");
   return n;
 }
 
@@ -380,14 +478,15 @@ static void print_trace(void) {
 
 /* ------------------------------------------------------------------ DFS */
 #define MAXPRE 64
-static unsigned long long ex_schedules, ex_by_pre[MAXPRE + 1], ex_livelocks, ex_validated, ex_dec0, ex_runs0;
+static unsigned long long ex_schedules, ex_by_pre[MAXPRE + 1], ex_livelocks, ex_validated, ex_dec0, ex_runs0, ex_guard0;
 static int ex_maxdepth;
 static int mode_replay;              /* 0 exploring, 1 replay with trace (S), 2 replay twice (V) */
 static const char *replay_text;
 
 static void emit_results(void) {
-  printf("PROG %s schedules=%llu decisions=%llu runs=%llu validated=%llu maxdepth=%d livelocks=%llu histories=%d by_pre=",
-         prog.id, ex_schedules, n_decisions - ex_dec0, n_runs - ex_runs0, ex_validated, ex_maxdepth, ex_livelocks, nhist);
+  printf("PROG %s schedules=%llu decisions=%llu runs=%llu validated=%llu maxdepth=%d livelocks=%llu histories=%d guardchecks=%llu by_pre=",
+         prog.id, ex_schedules, n_decisions - ex_dec0, n_runs - ex_runs0, ex_validated, ex_maxdepth, ex_livelocks, nhist,
+         n_guard_checks - ex_guard0);
   for (int i = 0; i <= MAXPRE; i++) if (ex_by_pre[i]) printf("%d:%llu,", i, ex_by_pre[i]);
   printf("\n");
   for (int b = 0; b < HBUCKETS; b++) {
@@ -463,7 +562,7 @@ static void install_handlers(void) {
 static void explore(void) {
   long bound = prog.bound < 0 ? (1L << 30) : prog.bound;
   char text[4096];
-  ex_schedules = ex_livelocks = ex_validated = 0; ex_dec0 = n_decisions; ex_runs0 = n_runs; ex_maxdepth = 0;
+  ex_schedules = ex_livelocks = ex_validated = 0; ex_dec0 = n_decisions; ex_runs0 = n_runs; ex_guard0 = n_guard_checks; ex_maxdepth = 0;
   memset(ex_by_pre, 0, sizeof ex_by_pre);
   mode_replay = 0;
   replay_len = 0; strict_replay = 0;
